@@ -591,7 +591,17 @@ pub fn op_strategy(chunk: usize, with_faults: bool, gzip: bool) -> BoxedStrategy
     let size = if gzip {
         prop_oneof![4 => proptest::sample::select(vec![0u32, 1, 2, 7, 100, 1000, 5000]), 1 => 0u32..20_000].boxed()
     } else {
-        prop_oneof![4 => proptest::sample::select(sizes_for(chunk)), 1 => 0u32..(3 * chunk as u32 + 2).min(200_000)].boxed()
+        let c = chunk as u32;
+        prop_oneof![
+            4 => proptest::sample::select(sizes_for(chunk)),
+            1 => 0u32..(3 * c + 2).min(200_000),
+            // nearly a full chunk, and small pieces (a fraction of a chunk): partial chunks that
+            // pile up in the queue and top-ups that do or do not fit
+            2 => (1u32..=(c / 8).max(1)).prop_map(move |k| c.saturating_sub(k).max(1)),
+            2 => 1u32..=(c / 8).max(2),
+            1 => 1u32..=(c / 64).max(2),
+        ]
+        .boxed()
     };
     let base = prop_oneof![
         4 => size.clone().prop_map(Op::Write),
